@@ -55,6 +55,7 @@ fn foreign_init() -> Layout {
         coords: [0; 6],
         zero_counters: 0,
         overlap_prefixes: false,
+        inline: 0,
     }
 }
 
@@ -127,7 +128,7 @@ fn check_history(h: &History, full_every_step: bool) -> CaseResult {
 }
 
 /// A long history on a big, regular archive: 20-33k adds, edits, save + reopen (sync and async); the directory of
-/// such an archive compresses into a single root with far more than 16384 entries.
+/// such an archive compresses into a single root with far more than 16384 entries; without a codec it spills into leaves.
 #[derive(Clone, Debug, serde::Serialize, serde::Deserialize)]
 pub struct LongCase {
     pub n: u32,
@@ -204,7 +205,9 @@ pub fn run(ctx: &Ctx) {
     }
     let (max_ops, max_ids) = ctx.tier.pick((60, 300), (300, 3000));
     run_proptest(ctx, "random-histories", PtCfg::new(ctx.lanes, ctx.tier.pick(1000, 8000)), || history::history(max_ops, max_ids, 200), |h| check_history(h, h.ops.len() <= 12));
-    let longs: Vec<LongCase> = (0..ctx.tier.pick(3u32, 9)).map(|i| LongCase { n: 20_000 + 4500 * i, internal: 2 + (i % 3) as u8, seed: ctx.seed + u64::from(i) }).collect();
+    let mut longs: Vec<LongCase> = (0..ctx.tier.pick(3u32, 9)).map(|i| LongCase { n: 20_000 + 4500 * i, internal: 2 + (i % 3) as u8, seed: ctx.seed + u64::from(i) }).collect();
+    // the same without a codec: the directory spills into 2, 3, 4, ... leaves, with entry counts that leave a remainder
+    longs.extend((0..ctx.tier.pick(4u32, 12)).map(|i| LongCase { n: 4101 + 1733 * i, internal: 1, seed: ctx.seed + 50 + u64::from(i) }));
     run_list(ctx, "long-history-on-big-archive", &longs, check_long);
     run_list(ctx, "finding-class-probes", &adversarial_probe(), check_probe);
     for c in ["replace-bound-id", "edit-shared-content", "edit-after-reopen", "init-foreign", "init-written", "init-empty"] {
